@@ -91,7 +91,7 @@ macro_rules! c14_render {
                 check!(next == pos + Point::new(2 * cw, 0), "C14.next_position");
                 (t.last, t.writes)
             } else {
-                let mut t = Probe::<Gray8>::new(q, big);
+                let mut t = Probe::<Gray8>::new(q, sym_bbox(q));
                 style.draw_string("ab", pos, Baseline::Top, &mut t).unwrap();
                 (t.last, t.writes)
             };
@@ -168,7 +168,7 @@ macro_rules! c14_custom {
                 let next = style.draw_string("ab", pos, Baseline::Top, &mut t).unwrap();
                 (t.last, t.writes, next)
             } else {
-                let mut t = Probe::<Gray8>::new(q, big);
+                let mut t = Probe::<Gray8>::new(q, sym_bbox(q));
                 let next = style.draw_string("ab", pos, Baseline::Top, &mut t).unwrap();
                 (t.last, t.writes, next)
             };
